@@ -135,4 +135,4 @@ package vm
 //@   loop OpMap invariant[stack] obj(vm.stack) == pre(obj(vm.stack)) && len(vm.stack) >= 0
 //@   case OpMap: assume-compiled size >= 0
 //@   case OpCallFast: exempt-alloc the argument vector of a variadic call is not a collection built by the expression
-//@   case OpRange: on-budget-panic galloc() + ite(max - min + 1 > 0, max - min + 1, 0) >= vm.limit
+//@   case OpRange: on-budget-panic (max - min + 1 > 0 ==> galloc() + (max - min + 1) >= vm.limit) && (max - min + 1 <= 0 ==> galloc() >= vm.limit)
